@@ -24,18 +24,19 @@ def gen_element(r, used):
     k = r.random()
     if k < 0.15:
         n, = fresh()
-        return f'Lot {n}', 'lot', False
+        return f'Lot {H.numstr(r, n)}', 'lot', False
     if k < 0.3:
         ns = fresh(r.randint(2, 4))
-        return f'Lots {ns[0]} {r.choice(["-", "through", "thru"])} {ns[-1]}', 'lotrange', False
+        return f'Lots {H.numstr(r, ns[0])} {r.choice(["-", "through", "thru"])} {H.numstr(r, ns[-1])}', 'lotrange', False
     if k < 0.45:
         n, = fresh()
         ac = r.choice(['40.00', '38.29', '39', '160'])
+        n = H.numstr(r, n, p_alt=0.2, p_zero=0.2)      # '07', '007', other-script digits: int() reads them all as 7
         return (f'Lot {n}({ac})' if r.random() < 0.5 else f'Lot {n} [{ac}]'), 'lotacre', False
     if k < 0.6:
         ns = fresh(r.randint(1, 3))
         aq = r.choice(HALF + QUARTER)
-        lots = f'Lot {ns[0]}' if len(ns) == 1 else f'Lots {ns[0]} - {ns[-1]}'
+        lots = f'Lot {H.numstr(r, ns[0])}' if len(ns) == 1 else f'Lots {H.numstr(r, ns[0])} - {H.numstr(r, ns[-1])}'
         return f'{aq} of {lots}', 'lotdiv', False
     if k < 0.9:
         chain = ''.join(r.choice(['', '', ' of the ', ' ']).join([r.choice(HALF + QUARTER) for _ in range(r.randint(1, 2))] + [r.choice(QUARTER)]))
@@ -100,6 +101,8 @@ def run(tier, mode):
             bad = ('qqs', whole['qqs'], want_qqs)
         elif whole['acres'] != want_acres:
             bad = ('lot_acres', whole['acres'], want_acres)
+        elif not set(whole['acres']) <= {x.split(' of ')[-1] for x in whole['lots']}:
+            bad = ('lot_acres_keys', whole['acres'], 'every acreage attributed to one of the reported lots ' + repr(whole['lots']))
         elif whole['lots_qqs'] != whole['lots'] + whole['qqs']:
             bad = ('lots_qqs', whole['lots_qqs'], whole['lots'] + whole['qqs'])
         elif whole['ilots'] != [int(x.split('L')[-1]) for x in whole['lots']]:
@@ -121,7 +124,9 @@ def run(tier, mode):
     direct = [('Lot 1(40.1), Lot 2 [39]', None, ['L1', 'L2'], {'L1': '40.1', 'L2': '39'}),
               ('N/2 of Lots 1 - 3 and Lot 5', None, ['N2 of L1', 'N2 of L2', 'N2 of L3', 'L5'], {}),
               ('N/2 of Lots 1 - 3 and Lot 5', 'suppress_lot_divs', ['L1', 'L2', 'L3', 'L5'], {}),
-              ('Lot 7(40), NE/4 of Lot 8[160]; Lot 9', None, ['L7', 'NE of L8', 'L9'], {'L7': '40', 'L8': '160'})]
+              ('Lot 7(40), NE/4 of Lot 8[160]; Lot 9', None, ['L7', 'NE of L8', 'L9'], {'L7': '40', 'L8': '160'}),
+              ('Lot 01(40.00)', None, ['L1'], {'L1': '40.00'}), ('Lot 1, Lot 02 [38.5]; NE/4', None, ['L1', 'L2'], {'L2': '38.5'}),
+              ('Lot \u0663(40)', None, ['L3'], {'L3': '40'}), ('N/2 of Lot 007(12.5)\nLot 8', None, ['N2 of L7', 'L8'], {'L7': '12.5'})]
     for text, cfg, lots, acres in direct:
         o = observe(pytrs, text, cfg)
         n_or += 1
